@@ -116,7 +116,9 @@ pub fn run(p: &Params) -> Outcome {
         let is_sup = supported.binary_search(&n).is_ok();
         let mk = |payload: &mut Vec<u8>| {
             bits::write(payload, 0, 12, n as u128);
-            crc::frame(payload)
+            // reserved header bits derived from the payload so that a share of the frames has them set
+            let r = payload.iter().fold(0u8, |a, b| a ^ *b);
+            crc::frame_with_reserved(payload, if r & 3 == 0 { r >> 2 } else { 0 })
         };
         // two bytes only
         for low in [0u8, 0x0F, rng.u8() & 0x0F] {
@@ -153,10 +155,12 @@ pub fn run(p: &Params) -> Outcome {
         }
         if n < 64 {
             // payloads shorter than two bytes
-            let f0 = crc::frame(&[]);
+            // with every setting of the six reserved header bits (n doubles as the setting)
+            let res = n as u8 & 0x3F;
+            let f0 = crc::frame_with_reserved(&[], res);
             check_frame(ctx, &f0, &supported, "payload_0_or_1_bytes");
             for b in [0u8, 0x3E, 0xFF, rng.u8()] {
-                check_frame(ctx, &crc::frame(&[b]), &supported, "payload_0_or_1_bytes");
+                check_frame(ctx, &crc::frame_with_reserved(&[b], res), &supported, "payload_0_or_1_bytes");
             }
         }
     });
